@@ -1,0 +1,42 @@
+//go:build verif
+
+package ecdsa
+
+import "sort"
+
+// Read-only access for the verification harness (/verif, property C19). Nothing here is compiled without -tags verif.
+
+// VerifTables returns copies of the two classification tables.
+func VerifTables() (rounds map[string]uint8, broadcast []string) {
+	rounds = make(map[string]uint8, len(msgURL2Round))
+	for k, v := range msgURL2Round {
+		rounds[k] = v
+	}
+	for k := range broadcastMessages {
+		broadcast = append(broadcast, k)
+	}
+	sort.Strings(broadcast)
+	return rounds, broadcast
+}
+
+// VerifInLen is the number of messages OnMsg has queued and nobody has consumed yet.
+func (p *party) VerifInLen() int { return len(p.in) }
+
+// VerifInCap is the capacity of the queue OnMsg writes to.
+func (p *party) VerifInCap() int { return cap(p.in) }
+
+// VerifDrainIn empties the queue filled by OnMsg without blocking and reports, per queued message, the sender it is
+// attributed to (key and index), its type and the broadcast flag it carries.
+func (p *party) VerifDrainIn() (fromKeys [][]byte, fromIdx []int, types []string, bcast []bool) {
+	for {
+		select {
+		case m := <-p.in:
+			fromKeys = append(fromKeys, append([]byte{}, m.GetFrom().GetKey()...))
+			fromIdx = append(fromIdx, m.GetFrom().Index)
+			types = append(types, m.Type())
+			bcast = append(bcast, m.IsBroadcast())
+		default:
+			return
+		}
+	}
+}
